@@ -11,7 +11,7 @@ for f in sorted(glob.glob(os.path.join(root, 'harness', '*', 'checks.d', '*.json
     c = json.load(open(f))
     c['bin'] = b
     reg['checks'].append(c)
-claimed = {c['id']: c for c in reg['checks']}
+claimed = {c['id']: c for c in reg['checks'] if c['id'] in reg.get('enabled', [])}
 checks = []
 for p in props:
     c = claimed.get(p['id'])
@@ -32,7 +32,7 @@ for p in props:
     if p['id'] not in claimed:
         na.append({'property_id': p['id'], 'reason': reg.get('not_applicable', {}).get(p['id'], 'not claimed yet: check not built (see DESIGN.md §7)')})
 engines = {}
-for c in reg['checks']:
+for c in claimed.values():
     engines.setdefault(c['bin'], []).append(c['id'])
 man = {
     'version': 1,
